@@ -21,6 +21,13 @@
 //! something that is not a propagating call, unknown expression kinds ...) becomes `Other "why"`,
 //! which fails the Coq check (fail closed).  Shapes that cannot be represented at all (an anchored
 //! file missing, a macro_rules body calling a propagating method) make this program exit non-zero.
+//!
+//! Completeness self-check (independent of the AST walk): per function the number of `name(` tokens with a
+//! propagating name must equal the number of translated call sites, otherwise an `Other` is appended.
+//! Known limit (documented in props/C04.py): calls are recognised by NAME.  A callee that is not defined in the
+//! scanned tree (closure parameter `f(target)`, method of a foreign trait) is only noticed where its value is the
+//! function result or the operand of `?` (-> Other); discarding such a Result with `;` is not seen statically
+//! (the dynamic sweep p_errflow is the net for that).
 use proc_macro2::{Delimiter, TokenStream, TokenTree};
 use std::collections::BTreeSet;
 use std::fmt::Write as _;
@@ -231,6 +238,79 @@ fn tokens_call_prop(ts: TokenStream, prop: &BTreeSet<String>) -> Option<String> 
         }
     }
     None
+}
+
+/// independent count of propagating call tokens `name (` (not preceded by `fn`) in a token stream
+fn census(ts: TokenStream, prop: &BTreeSet<String>) -> usize {
+    let v: Vec<TokenTree> = ts.into_iter().collect();
+    let mut n = 0;
+    for i in 0..v.len() {
+        match &v[i] {
+            TokenTree::Ident(id) if prop.contains(&id.to_string()) => {
+                let mut j = i + 1;
+                // turbofish: name::<T>(..)
+                if let (Some(TokenTree::Punct(a)), Some(TokenTree::Punct(b))) = (v.get(j), v.get(j + 1)) {
+                    if a.as_char() == ':' && b.as_char() == ':' {
+                        j += 2;
+                        let mut depth = 0i32;
+                        while let Some(t) = v.get(j) {
+                            if let TokenTree::Punct(p) = t {
+                                if p.as_char() == '<' {
+                                    depth += 1;
+                                } else if p.as_char() == '>' {
+                                    depth -= 1;
+                                    if depth == 0 {
+                                        j += 1;
+                                        break;
+                                    }
+                                }
+                            }
+                            j += 1;
+                        }
+                    }
+                }
+                if let Some(TokenTree::Group(g)) = v.get(j) {
+                    let is_def = i > 0 && matches!(&v[i - 1], TokenTree::Ident(f) if f == "fn");
+                    if g.delimiter() == Delimiter::Parenthesis && !is_def {
+                        n += 1;
+                    }
+                }
+            }
+            TokenTree::Group(g) => n += census(g.stream(), prop),
+            _ => {}
+        }
+    }
+    n
+}
+
+fn nested_fn_census(block: &Block, prop: &BTreeSet<String>) -> usize {
+    struct V<'a> {
+        prop: &'a BTreeSet<String>,
+        n: usize,
+    }
+    impl<'ast, 'a> syn::visit::Visit<'ast> for V<'a> {
+        fn visit_item_fn(&mut self, f: &'ast ItemFn) {
+            // not descending: the whole nested fn (with fns nested in it) is counted once
+            self.n += census(quote::ToTokens::to_token_stream(&f.block), self.prop);
+        }
+    }
+    let mut v = V { prop, n: 0 };
+    syn::visit::visit_block(&mut v, block);
+    v.n
+}
+
+fn sk_sites(s: &Sk) -> (usize, usize) {
+    match s {
+        Sk::Call(..) => (1, 0),
+        Sk::Other(_) => (0, 1),
+        Sk::Seq(a, b) | Sk::Branch(a, b) => {
+            let (x, y) = sk_sites(a);
+            let (z, w) = sk_sites(b);
+            (x + z, y + w)
+        }
+        Sk::Loop(b) => sk_sites(b),
+        _ => (0, 0),
+    }
 }
 
 impl<'a> Ctx<'a> {
@@ -779,14 +859,25 @@ fn main() {
             Some(b) => b,
             None => continue,
         };
+        // completeness self-check, independent of the AST walk: every `name(` token with a propagating name in
+        // the body (nested fn items excluded, they are functions of their own) must have become a Call site
+        let expect = census(quote::ToTokens::to_token_stream(body), &prop) - nested_fn_census(body, &prop);
+        let checked = |sk: Sk| -> Sk {
+            let (calls, others) = sk_sites(&sk);
+            if others == 0 && calls != expect {
+                seq(sk, Sk::Other(format!("token census: {} propagating call tokens in the body but {} call sites translated", expect, calls)))
+            } else {
+                sk
+            }
+        };
         if ef {
-            let sk = ctx.block(body, Use::Result);
+            let sk = checked(ctx.block(body, Use::Result));
             infos.push(FnInfo { name: sig.ident.to_string(), place: place.clone(), body: sk });
         } else {
             // non error-flow function: every propagating call in it necessarily loses the error
             let fake = Expr::Block(ExprBlock { attrs: vec![], label: None, block: body.clone() });
-            if ctx.contains_prop_call_no_try(&fake) {
-                let sk = ctx.block(body, Use::Discard);
+            if ctx.contains_prop_call_no_try(&fake) || expect != 0 {
+                let sk = checked(ctx.block(body, Use::Discard));
                 infos.push(FnInfo { name: sig.ident.to_string(), place: format!("{} (does not return a target error)", place), body: sk });
             }
         }
